@@ -89,9 +89,12 @@ package scheduler
 //@ func =(*github.com/benbjohnson/clock.Timer).Stop
 //@   trusted
 //@   modifies nothing
+// Specification-only counter on a timer: every Reset (arming) adds one; nothing ever lowers it.
+//@ ghost (github.com/benbjohnson/clock.Timer) resets int
 //@ func =(*github.com/benbjohnson/clock.Timer).Reset
 //@   trusted
-//@   modifies nothing
+//@   modifies gf(recv, resets, int)
+//@   ensures gf(recv, resets, int) == old(gf(recv, resets, int)) + 1
 //@ func =(github.com/benbjohnson/clock.Clock).Now
 //@   trusted
 //@   modifies nothing
@@ -111,6 +114,7 @@ package scheduler
 //@       && as(callarg(Delete, 0), Item).id == sch.ID() && as(callarg(Delete, 0), Item).when == old(s.nextTime[sch.ID()])
 //@   ensures [nothing-else-deleted] !old(has(s.nextTime, sch.ID())) ==> !called(Delete)
 //@   ensures [other-tasks-untouched] forall j ID :: j != sch.ID() ==> has(s.nextTime, j) == old(has(s.nextTime, j)) && s.nextTime[j] == old(s.nextTime[j])
+//@   ensures [when-changed-means-armed] s.timer == old(s.timer) && (s.when != old(s.when) ==> gf(s.timer, resets, int) > old(gf(s.timer, resets, int)))
 //@   ensures [failure-leaves-index] result != nil ==> !called(Delete) && !called(ReplaceOrInsert) && has(s.nextTime, sch.ID()) == old(has(s.nextTime, sch.ID()))
 
 // release: the task's item is deleted under its recorded key and the task leaves the index;
@@ -123,3 +127,41 @@ package scheduler
 //@   ensures old(has(s.nextTime, taskID)) ==> called(Delete) && typeis(callarg(Delete, 0), Item) && as(callarg(Delete, 0), Item).id == taskID && as(callarg(Delete, 0), Item).when == old(s.nextTime[taskID])
 //@   ensures !old(has(s.nextTime, taskID)) ==> !called(Delete)
 //@   ensures forall j ID :: j != taskID ==> has(s.nextTime, j) == old(has(s.nextTime, j)) && s.nextTime[j] == old(s.nextTime[j])
+
+// ---------------------------------------------------------------- the wake-up protocol (C17)
+// "the executor is invoked for consecutive occurrences ...": the scheduler goroutine sleeps on one
+// timer; s.when caches the time that timer is armed for, and Schedule re-arms the timer only when
+// s.when is zero or later than the new item. So a non-zero s.when must always have an armed timer
+// behind it, or newly scheduled tasks are never run. Two halves:
+//  - Schedule: whenever it changes s.when it arms the timer (a Reset follows);
+//  - the scheduler loop: every pass that goes back to sleep with a non-zero s.when has armed the
+//    timer during that pass (the timer that woke it has fired and is spent); a pass that finds
+//    nothing scheduled clears s.when.
+// process() runs the due items; assumed here (trusted): it writes only its scratch lists and the
+// per-id index (what its body and the iterator closure assign), and never lowers the arming counter.
+//@ func (*TreeScheduler).process
+//@   trusted
+//@   requires s != nil
+//@   modifies s.items.toDelete, s.items.toInsert, elems(s.items.toDelete), elems(s.items.toInsert), map(s.nextTime)
+//@   ensures s.timer == old(s.timer) && s.time == old(s.time) && s.priorityQueue == old(s.priorityQueue) && gf(s.timer, resets, int) >= old(gf(s.timer, resets, int))
+//@ func (*TreeScheduler).resetTimer
+//@   props C17
+//@   requires s != nil && s.timer != nil && s.time != nil
+//@   modifies s.when, gf(s.timer, resets, int)
+//@   ensures gf(s.timer, resets, int) == old(gf(s.timer, resets, int)) + 1
+// The queue only ever holds Items (every insertion in this package passes an Item).
+//@ func =(*github.com/google/btree.BTree).Min
+//@   trusted
+//@   modifies nothing
+//@   ensures result == nil || typeis(result, Item)
+//@ func NewScheduler$2
+//@   props C17
+//@   requires s != nil && s.timer != nil && s.time != nil && s.priorityQueue != nil
+//@   loop 1
+//@     invariant s != nil && s.timer != nil && s.time != nil && s.priorityQueue != nil
+//@     transition s.timer == prev(s.timer) && (s.when == time.Time(0) || gf(s.timer, resets, int) > prev(gf(s.timer, resets, int)))
+//@   loop 2
+//@     invariant 0 <= _i
+//@   loop 3
+//@     invariant s != nil && s.timer != nil && s.time != nil && s.priorityQueue != nil
+//@     invariant s.timer == before(s.timer) && gf(s.timer, resets, int) >= before(gf(s.timer, resets, int))
